@@ -112,6 +112,16 @@ CLAIMS["C16"] = {
     "technique": "MIR value-flow (index derives from CaptureGroup.id), call-site inventory and sibling cross-check of the two duplicate-name lookups",
 }
 
+
+CLAIMS["C09"] = {
+    "text": "Decides the iterator plumbing on all paths: every path from a successful attempt to a Some(Match) return stores through next_start, "
+            "the value is Some(end) if end != start else next_right_pos(end) selected by exactly that comparison (progress), find_from reaches the "
+            "matcher only through the boundary check, the whole text and the unmodified start reach the executor, Matches::next feeds `position` "
+            "back as the out-parameter, initial_position is try_move_right(left_end, offset) (PLUMB).",
+    "note": COMMON_NOTE + "Not decided: equality of the sequence with the unfold of first-match, which inherits C01.",
+    "technique": "MIR must-pass-through (dominators / reachability with cut sets) + value-flow of the stored cursor",
+}
+
 PENDING = "rules for this property are designed (DESIGN.md §3/§4) but not built yet; nothing is claimed until they exist"
 
 NOT_APPLICABLE = {("C%02d" % i): PENDING for i in range(1, 21)}
